@@ -244,3 +244,17 @@ TEXT["C12"] = dict(
                "Exploration: held on the histories and schedules generated.",
     level_note="trusts the registry/ledger and the shim's fidelity; sequentially consistent schedules only, TSan for "
                "missing synchronisation")
+TEXT["C07"] = dict(
+    engine="differential",
+    design_ref="DESIGN.md section 4, C07",
+    technique="runtime differential monitor vs stable reference merge with identity-carrying, write-counting elements on real threads, under TSan (races) and ASan+UBSan (memory)",
+    level_text="The C05 shapes (empty sequences, heavy ties across every split point, dominant sequences) are merged by all "
+               "four parallel entry points for every length class, 1..32 threads (more threads than elements included), "
+               "both splitting strategies, three oversampling factors, all merge algorithms and both the forced and the "
+               "natural parallel switch. Elements carry (sequence, position) and count assignments per destination "
+               "object, so the monitor decides keys, stability, the per-input prefix property, the returned end, the "
+               "advanced inputs, writes beyond length and 'each position written exactly once'; TSan decides data races "
+               "on the real executions. Exploration: held on the cases and OS schedules observed.",
+    level_note="trusts std::stable_sort as the reference and TSan/ASan reports; no controlled scheduler here - the merge "
+               "threads do not synchronise with each other, so interleavings only matter through overlapping writes, which "
+               "the write counters and TSan observe directly")
